@@ -14,12 +14,21 @@ Require Import Value Bytes GenSigEnc.
 Import ListNotations.
 Local Open Scope Z_scope.
 
+(* ---------- big-endian encoder by shifts (Lib/Bytes.be_enc divides by 256, which is quadratic under vm_compute);
+   Proofs/SigEncProofs.be_enc_f_eq : be_enc_f w n = be_enc w n ---------- *)
+Fixpoint le_enc_f (w : nat) (n : N) : list N :=
+  match w with
+  | O => []
+  | S w' => N.land n 255 :: le_enc_f w' (N.shiftr n 8)
+  end.
+Definition be_enc_f (w : nat) (n : N) : list N := rev (le_enc_f w n).
+
 (* ---------- Python int <-> bytes, slices ---------- *)
 (* v.to_bytes(w, "big"): OverflowError for a negative or too large value, ValueError for a negative length *)
 Definition to_bytes_be (v w : Z) : res (list N) :=
   if (v <? 0) || (w <? 0) then Err 2%N
-  else if 2 ^ (8 * w) <=? v then Err 2%N
-  else Ok (be_enc (Z.to_nat w) (Z.to_N v)).
+  else if Z.shiftl 1 (8 * w) <=? v then Err 2%N      (* 2 ^ (8 * w) *)
+  else Ok (be_enc_f (Z.to_nat w) (Z.to_N v)).
 Definition from_bytes_be (l : list N) : Z := Z.of_N (be_dec l).
 Definition take {A} (n : Z) (l : list A) : list A := firstn (Z.to_nat n) l.      (* l[:n], n >= 0 *)
 Definition drop {A} (n : Z) (l : list A) : list A := skipn (Z.to_nat n) l.       (* l[n:], n >= 0 *)
@@ -33,11 +42,11 @@ Fixpoint lookup (tbl : list (Z * Z)) (k : Z) : option Z :=
 
 (* ---------- DER: SEQUENCE { INTEGER r, INTEGER s } ---------- *)
 (* content octets of a non-negative INTEGER: bit_length // 8 + 1 bytes, big endian (minimal two's complement) *)
-Definition der_int_content (n : N) : list N := be_enc (N.to_nat (N.size n / 8 + 1)) n.
+Definition der_int_content (n : N) : list N := be_enc_f (N.to_nat (N.size n / 8 + 1)) n.
 (* definite length, minimal: short form below 128, else 0x80+k followed by k big-endian bytes *)
 Definition der_len_bytes (n : N) : list N :=
   if (n <? 128)%N then [n]
-  else let k := N.to_nat ((N.size n + 7) / 8) in (128 + N.of_nat k)%N :: be_enc k n.
+  else let k := N.to_nat ((N.size n + 7) / 8) in (128 + N.of_nat k)%N :: be_enc_f k n.
 Definition der_tlv (tag : N) (c : list N) : list N := tag :: der_len_bytes (nlen c) ++ c.
 Definition der_sig (r s : N) : list N :=
   der_tlv 48 (der_tlv 2 (der_int_content r) ++ der_tlv 2 (der_int_content s)).
@@ -196,10 +205,11 @@ Fixpoint rsa_recreate_tbl (tbl : list Z) (data : list N) : res (Z * Z) :=
 Definition rsa_recreate_public_numbers (data : list N) : res (Z * Z) := rsa_recreate_tbl rsa_key_sizes data.
 
 (* ---------- PublicKeyEcc NXP raw format ---------- *)
+Definition p2 (k : Z) : Z := Z.shiftl 1 k.      (* 2 ^ k *)
 Definition curve_p (ks : Z) : Z :=
-  if ks =? 256 then 2 ^ 256 - 2 ^ 224 + 2 ^ 192 + 2 ^ 96 - 1
-  else if ks =? 384 then 2 ^ 384 - 2 ^ 128 - 2 ^ 96 + 2 ^ 32 - 1
-  else 2 ^ 521 - 1.
+  if ks =? 256 then p2 256 - p2 224 + p2 192 + p2 96 - 1
+  else if ks =? 384 then p2 384 - p2 128 - p2 96 + p2 32 - 1
+  else p2 521 - 1.
 Definition curve_b (ks : Z) : Z :=
   if ks =? 256 then 41058363725152142129326129780047268409114441015993725554835256314039467401291
   else if ks =? 384 then 27580193559959705877849011840389048093056905856361568521428707301988689241309860865136260764883745107765439761230575
@@ -327,6 +337,56 @@ Definition rsa_pub_parse (data : list N) (pem der : option pubkey) (rsa_valid : 
   | Err k => Err k
   end.
 
+(* ---------- nxpcrypto key convert -e RAW and reconstruct_key (spsdk/apps/nxpcrypto.py); keys.get_ecc_curve ---------- *)
+Definition cli_raw_width (ks : Z) : Z := ks / cli_raw_div.                   (* key.key_size // 8 *)
+Definition cli_convert_raw_pub (x y ks : Z) : res (list N) :=
+  let w := cli_raw_width ks in
+  bind (to_bytes_be x w) (fun xb => bind (to_bytes_be y w) (fun yb => Ok (xb ++ yb))).
+Definition cli_convert_raw_prv (d ks : Z) : res (list N) := to_bytes_be d (cli_raw_width ks).
+(* keys.get_ecc_curve(key_length) *)
+Definition key_len_curve (L : Z) : res Z :=
+  if (L <=? klc_256_max) || (L =? klc_256_pub) then Ok 0
+  else if (L <=? klc_384_max) || (L =? klc_384_pub) then Ok 1
+  else if L <=? klc_521_max then Ok 2
+  else Err 1%N.
+Definition curve_n (ks : Z) : Z :=
+  if ks =? 256 then 115792089210356248762697446949407573529996955224135760342422259061068512044369
+  else if ks =? 384 then 39402006196394479212279040100143613805079739270465446667946905279627659399113263569398956308152294913554433653942643
+  else 6864797660130609714981900799081393217269435300143305409394463459185543183397655394245057746333217197532963996371363321113864768612440380340372808892707005449.
+Inductive clikey := CPub (k : pubkey) | CPrv (cv d : Z).
+(* reconstruct_key(data) for data that PrivateKey.parse rejects with an SPSDK error (black box);
+   pub = what PublicKey.parse does with the data (pub_parse) *)
+Definition cli_reconstruct (data : list N) (pub : res pubkey) : res clikey :=
+  match pub with
+  | Ok k => Ok (CPub k)
+  | Err 1%N =>
+      let L := zlen data in
+      match key_len_curve L with
+      | Err k => Err k
+      | Ok cv =>
+          match lookup ecc_curves cv with
+          | None => Err 2%N
+          | Some ks =>
+              if L <=? cli_prv_max then
+                let d := from_bytes_be data in
+                if (1 <=? d) && (d <? curve_n ks) then Ok (CPrv cv d) else Err 2%N     (* derive_private_key: ValueError *)
+              else if (L =? cli_pub_a) || (L =? cli_pub_b) then
+                let cl := L / cli_pub_half in
+                let x := from_bytes_be (take cl data) in
+                let y := from_bytes_be (drop cl data) in
+                if on_curve ks x y then Ok (CPub (KEcc cv (x mod curve_p ks) (y mod curve_p ks))) else Err 1%N
+              else Err 1%N
+          end
+      end
+  | Err k => Err k
+  end.
+Definition vclikey (k : clikey) : value :=
+  match k with
+  | CPub (KEcc cv x y) => VList [VInt 0; VInt cv; VInt x; VInt y]
+  | CPub (KRsa e n) => VList [VInt 1; VInt e; VInt n]
+  | CPrv cv d => VList [VInt 2; VInt cv; VInt d]
+  end.
+
 (* ---------- run_case dispatcher for the correspondence check ---------- *)
 Definition vbytes_res (r : res (list N)) : value := vres VBytes r.
 Definition zb (z : Z) : bool := negb (z =? 0).
@@ -344,7 +404,22 @@ Definition key_of (v : value) : option (option pubkey) :=
   | _ => None
   end.
 
-Definition run_case (fn : Z) (args : list value) : value :=
+(* integers of 2^63 and above travel as VStr (big-endian magnitude bytes): decimal input/output of large
+   numbers is the slowest part of an evaluation *)
+Fixpoint norm_in (v : value) : value :=
+  match v with
+  | VStr l => VInt (from_bytes_be l)
+  | VList l => VList (map norm_in l)
+  | _ => v
+  end.
+Fixpoint norm_out (v : value) : value :=
+  match v with
+  | VInt z => if 2 ^ 63 <=? z then VStr (be_enc_f (N.to_nat ((N.size (Z.to_N z) + 7) / 8)) (Z.to_N z)) else v
+  | VList l => VList (map norm_out l)
+  | _ => v
+  end.
+
+Definition run_case_raw (fn : Z) (args : list value) : value :=
   match fn, args with
   | 1, [VInt r; VInt s] => vbytes_res (encode_dss r s)
   | 2, [VBytes b] => match decode_dss b with Some (r, s) => VList [VInt (Z.of_N r); VInt (Z.of_N s)] | None => VErr 2%N end
@@ -378,8 +453,16 @@ Definition run_case (fn : Z) (args : list value) : value :=
       end
   | 18, [VBytes b] => vbool (pem_like b)
   | 19, [VBytes b; VInt ks; VInt df] => vbytes_res (ecc_sign_format b ks (zb df))
+  | 20, [VInt x; VInt y; VInt ks] => vbytes_res (cli_convert_raw_pub x y ks)
+  | 21, [VInt d; VInt ks] => vbytes_res (cli_convert_raw_prv d ks)
+  | 22, [VBytes b; pem; der; VInt rv] =>
+      match key_of pem, key_of der with
+      | Some p, Some d => vres vclikey (cli_reconstruct b (pub_parse b p d (zb rv)))
+      | _, _ => VErr E_BADCASE
+      end
   | _, _ => VErr E_BADCASE
   end.
+Definition run_case (fn : Z) (args : list value) : value := norm_out (run_case_raw fn (map norm_in args)).
 
 (* ---------- sanity examples (values observed on the real code) ---------- *)
 Example ex_der_1_1 : der_sig 1 1 = [48; 6; 2; 1; 1; 2; 1; 1]%N.
